@@ -26,14 +26,15 @@
    Guards carried from the constraint theorems: known finding D1
    (trap_mono_cond_with_edgeworth, C01) and D2 (monotone AND convex PWL, C04);
    D32 (weighted average with all weights clipped to zero) is refuted below.
-   KroneckerFactoredLattice-parameterised models are NOT covered by these
-   theorems (C07 is separate); they are covered by the implementation-side
-   histories of the tie only. *)
+   KroneckerFactoredLattice-parameterised models: section D (on top of C07's
+   development, MK = Model/KFL.v, PK = Proofs/KFL.v); RTL structures: section E
+   (on top of C17's wiring theorem). *)
 From TFL Require Import Model.Premade Proofs.Premade.
 From TFL Require Import Proofs.PWLEval Proofs.LinearEval Proofs.LatticeInterp.
 From TFL Require Import Proofs.LatticeSpecFacts Proofs.LatticeFinalize.
 From TFL Require Import Model.PWLProject Proofs.PWLProject.
 From TFL Require Import Model.LinearProject Proofs.PartialOrder Proofs.TopoSort Proofs.LinearProject.
+From TFL Require Import Model.PremadeKFL Proofs.PremadeKFL Proofs.PremadeRTL.
 Open Scope Q_scope.
 
 (* ---------------------------------------------------------------------- *)
@@ -230,3 +231,220 @@ Print Assumptions C03_ensemble_bounded.
    with a missing value, a categorical pair and an output calibrator, evaluated
    by ex3_values), ex_pwl_desc_ok / ex_history_shaped / ex_history_run (a
    hostile history on two calibrator kernels) in Proofs/Premade.v. *)
+
+(* ---------------------------------------------------------------------- *)
+(* D. Kronecker-factored members (Model/PremadeKFL.v, Proofs/PremadeKFL.v)   *)
+(* ---------------------------------------------------------------------- *)
+(* Vocabulary:
+     MK.config / MK.params / MK.unit_out c p u xs / MK.run root c steps p, PK.root_ok,
+     PK.cfg_ok, PK.shaped, PK.hasK / PK.hasS, PK.coords_le, PK.in_range: as in Props/C07.v
+     kfl_feasible c dims p   the invariant the two KFL constraints establish and from
+                         which C07_monotone / C07_bounded follow: per (unit, term) shape,
+                         PK.kgood relative to the CURRENT scale, PK.sgood; fixed bias of a
+                         bounded layer
+     kfl_desc / kfl_var  one KFL layer as ONE variable (kernel, scale, bias) of the layer
+                         state machine; an Update hands it ARBITRARY raw parameters and
+                         then applies the constraint applications kd_steps, which contain
+                         BOTH constraints (any order): tf_keras Optimizer.apply_gradients
+                         assigns all variables, then constrains each of them
+     legacy_update root c order raw p   tf_keras legacy optimizers: per variable of
+                         grads_and_vars, assign then constrain, before the next variable
+     cal_kfl_eval c p cals oc x   output calibrator (optional) of unit 0 of the KFL layer
+                         on the calibrated coordinates (premade CalibratedLattice,
+                         parameterization='kronecker_factored')
+     member2 = MLat m | MKfl idx cals c p u ; ensemble2_eval   ensembles whose members
+                         are all-vertices lattices or KFL units; a member may read a
+                         feature at several positions (reads_monotone) *)
+
+(* C07's form of "the constraints have been applied" lands in the feasible set *)
+Theorem C03_kfl_constraint_history_feasible : forall root c dims steps p,
+  PK.root_ok root -> PK.cfg_ok c dims -> PK.shaped c dims p -> PK.hasK steps = true -> PK.hasS steps = true ->
+  (MK.has_bounds c = true -> Forall (fun b => b == MK.bias_init1 (MK.c_min c) (MK.c_max c)) (MK.p_bias p)) ->
+  kfl_feasible c dims (MK.run root c steps p).
+Proof. exact run_feasible. Qed.
+Print Assumptions C03_kfl_constraint_history_feasible.
+
+(* every state reached by any sequence of Update (arbitrary raw kernel AND scale,
+   any sign pattern, then both constraints) / Restore / Init is feasible *)
+Theorem C03_reachable_feasible_kfl : forall ds ops, (forall d, In d ds -> kfl_desc_ok d) ->
+  ops_shaped MK.params kfl_desc kfl_shape ds ops ->
+  forall s, In s (run (map kfl_var ds) ops) -> Forall2 kfl_inv ds s.
+Proof. exact reachable_feasible_kfl. Qed.
+Print Assumptions C03_reachable_feasible_kfl.
+
+(* a legacy (per-variable) optimizer given the variables in the layer's own order
+   scale, bias, kernel (model.trainable_variables: model.fit, minimize) performs
+   exactly the update with kd_steps = [StepS; StepK] *)
+Theorem C03_kfl_legacy_layer_order_is_update : forall root c raw p,
+  legacy_update root c [VScale; VBias; VKernel] raw p = MK.run root c [MK.StepS; MK.StepK] raw /\
+  legacy_update root c [VScale; VKernel] raw p =
+    MK.run root c [MK.StepS; MK.StepK] (MK.mkPar (MK.p_kern raw) (MK.p_scale raw) (MK.p_bias p)).
+Proof. intros root c raw p. split. apply legacy_layer_order. apply legacy_layer_order_fixed_bias. Qed.
+Print Assumptions C03_kfl_legacy_layer_order_is_update.
+
+(* FINDING: outside that discipline the property fails.  A legacy optimizer given
+   the kernel BEFORE the scale, or any optimizer given ONLY the scale, leaves a
+   kernel that was constrained against the old scale sign: from a feasible
+   state the unit becomes strictly decreasing along a monotone input. *)
+Theorem C03_kfl_scale_moved_after_kernel_constraint_refuted : exists root c dims p raw ms xs ys,
+  PK.root_ok root /\ PK.cfg_ok c dims /\ kfl_feasible c dims p /\ PK.shaped c dims raw /\
+  MK.canon_monos (MK.c_monos c) = Some ms /\ PK.coords_le ms xs ys /\
+  PK.in_range (MK.c_size c) xs /\ PK.in_range (MK.c_size c) ys /\
+  MK.unit_out c (legacy_update root c [VKernel; VScale] raw p) 0 ys <
+    MK.unit_out c (legacy_update root c [VKernel; VScale] raw p) 0 xs /\
+  MK.unit_out c (legacy_update root c [VScale] raw p) 0 ys <
+    MK.unit_out c (legacy_update root c [VScale] raw p) 0 xs.
+Proof. exact legacy_kernel_first_refuted. Qed.
+Print Assumptions C03_kfl_scale_moved_after_kernel_constraint_refuted.
+
+(* the invariant is exactly what the composition theorems below ask for *)
+Theorem C03_kfl_invariant_feeds_composition : forall c dims p u,
+  PK.cfg_ok c dims -> kfl_feasible c dims p ->
+  (forall ms xs ys, MK.canon_monos (MK.c_monos c) = Some ms -> PK.coords_le ms xs ys ->
+     MK.c_clip c = true \/ (PK.in_range (MK.c_size c) xs /\ PK.in_range (MK.c_size c) ys) ->
+     MK.unit_out c p u xs <= MK.unit_out c p u ys) /\
+  (forall xs, (u < length (MK.p_scale p))%nat -> (u < length (MK.p_bias p))%nat -> length xs = dims ->
+     MK.c_clip c = true \/ PK.in_range (MK.c_size c) xs ->
+     (forall lo, MK.c_min c = Some lo -> lo <= MK.unit_out c p u xs) /\
+     (forall hi, MK.c_max c = Some hi -> MK.unit_out c p u xs <= hi)).
+Proof. intros c dims p u Hc Hf. split.
+  - intros ms xs ys Em Hle Hr. exact (kfl_state_monotone c dims p ms u xs ys Hc Hf Em Hle Hr).
+  - intros xs Hu Hub Hl Hr. exact (kfl_state_bounded c dims p u xs Hc Hf Hu Hub Hl Hr). Qed.
+Print Assumptions C03_kfl_invariant_feeds_composition.
+
+(* Calibrated KFL, numeric feature i: calibrators inside [0, L-1], feasible
+   parameters, dimension i flagged monotone, monotone output calibrator.  For
+   EVERY pair of non-missing inputs x_i <= v, in or out of the keypoint range,
+   all other coordinates arbitrary (missing values included). *)
+Theorem C03_compose_monotone_kfl : forall c dims p ms cals oc x i v kps lens col miss,
+  PK.cfg_ok c dims -> kfl_feasible c dims p -> MK.canon_monos (MK.c_monos c) = Some ms -> nth i ms false = true ->
+  length cals = dims -> length x = dims -> (i < dims)%nat ->
+  cals_in_range (repeat (MK.c_size c) dims) cals -> out_monotone oc ->
+  nth i cals dcal = CPwl kps lens col miss ->
+  regular_input (nth i cals dcal) (nth i x 0) -> regular_input (nth i cals dcal) v -> nth i x 0 <= v ->
+  (outs_nondecr col -> cal_kfl_eval c p cals oc x <= cal_kfl_eval c p cals oc (set_nth i v x)) /\
+  (outs_nonincr col -> cal_kfl_eval c p cals oc (set_nth i v x) <= cal_kfl_eval c p cals oc x).
+Proof. exact compose_monotone_kfl. Qed.
+Print Assumptions C03_compose_monotone_kfl.
+
+Theorem C03_compose_monotone_kfl_categorical : forall c dims p ms cals oc x i vals d a b,
+  PK.cfg_ok c dims -> kfl_feasible c dims p -> MK.canon_monos (MK.c_monos c) = Some ms -> nth i ms false = true ->
+  length cals = dims -> length x = dims -> (i < dims)%nat ->
+  cals_in_range (repeat (MK.c_size c) dims) cals -> out_monotone oc ->
+  nth i cals dcal = CCat vals d -> (a < length vals)%nat -> (b < length vals)%nat ->
+  d <> Some (Z.of_nat a) -> d <> Some (Z.of_nat b) -> nth a vals 0 <= nth b vals 0 ->
+  cal_kfl_eval c p cals oc (set_nth i (qn a) x) <= cal_kfl_eval c p cals oc (set_nth i (qn b) x).
+Proof. exact compose_monotone_kfl_categorical. Qed.
+Print Assumptions C03_compose_monotone_kfl_categorical.
+
+(* bounds for ALL inputs including missing values: the layer's two bounds (no
+   output calibrator) or the output calibrator's keypoint outputs *)
+Theorem C03_bounded_kfl : forall c dims p cals oc lo hi x,
+  PK.cfg_ok c dims -> kfl_feasible c dims p -> (0 < length (MK.p_scale p))%nat -> (0 < length (MK.p_bias p))%nat ->
+  length cals = dims -> length x = dims -> cals_in_range (repeat (MK.c_size c) dims) cals ->
+  (oc = None -> MK.c_min c = Some lo /\ MK.c_max c = Some hi) -> out_range oc lo hi ->
+  lo <= cal_kfl_eval c p cals oc x <= hi.
+Proof. exact bounded_kfl. Qed.
+Print Assumptions C03_bounded_kfl.
+
+Theorem C03_bounded_kfl_one_sided : forall c dims p cals x,
+  PK.cfg_ok c dims -> kfl_feasible c dims p -> (0 < length (MK.p_scale p))%nat -> (0 < length (MK.p_bias p))%nat ->
+  length cals = dims -> length x = dims -> cals_in_range (repeat (MK.c_size c) dims) cals ->
+  (forall lo, MK.c_min c = Some lo -> lo <= cal_kfl_eval c p cals None x) /\
+  (forall hi, MK.c_max c = Some hi -> cal_kfl_eval c p cals None x <= hi).
+Proof. exact bounded_kfl_one_sided. Qed.
+Print Assumptions C03_bounded_kfl_one_sided.
+
+(* Ensembles with lattice AND KFL members; every position at which a member
+   reads feature i is a monotone dimension of that member whose calibrator unit
+   does not decrease from x_i to v (several positions allowed) *)
+Theorem C03_ensemble_monotone_mixed : forall ms c oc x i v, comb_monotone c -> out_monotone oc -> (i < length x)%nat ->
+  (forall m, In m ms -> member2_ok m /\ member2_monotone_in m i (nth i x 0) v) ->
+  ensemble2_eval ms c oc x <= ensemble2_eval ms c oc (set_nth i v x).
+Proof. exact ensemble2_compose_monotone. Qed.
+Print Assumptions C03_ensemble_monotone_mixed.
+
+Theorem C03_ensemble_bounded_mixed : forall ms c oc lo hi x,
+  (oc = None -> comb_average_like c (length ms) /\
+                forall m, In m ms -> member2_ok m /\ member2_in_bounds m lo hi) ->
+  out_range oc lo hi -> lo <= ensemble2_eval ms c oc x <= hi.
+Proof. exact ensemble2_bounded. Qed.
+Print Assumptions C03_ensemble_bounded_mixed.
+
+(* the extended type contains the old one, hypotheses included *)
+Theorem C03_ensemble_mixed_extends : forall ms c oc x,
+  ensemble_eval ms c oc x = ensemble2_eval (map MLat ms) c oc x /\
+  forall m i xi v, member_monotone_in m i xi v -> member2_monotone_in (MLat m) i xi v.
+Proof. intros ms c oc x. split. apply ensemble2_of_ensemble. exact member_monotone_in_embed. Qed.
+Print Assumptions C03_ensemble_mixed_extends.
+
+(* Hypotheses are satisfiable: a calibrated KFL unit and a hostile history on it *)
+Example C03_kfl_hypotheses_satisfiable :
+  PK.cfg_ok lk_cfg 1 /\ kfl_feasible lk_cfg 1 lk_par /\ MK.canon_monos (MK.c_monos lk_cfg) = Some [true] /\
+  nth 0 [true] false = true /\ cals_in_range (repeat (MK.c_size lk_cfg) 1) [exk_cal] /\ out_monotone None /\
+  regular_input exk_cal (-(3)) /\ regular_input exk_cal (1#2) /\ outs_nondecr [0; 1] /\
+  MK.c_min lk_cfg = Some (-(1)) /\ MK.c_max lk_cfg = Some 1.
+Proof. exact exk_hypotheses. Qed.
+Example C03_kfl_history_satisfiable :
+  (kfl_desc_ok (exk_d [MK.StepS; MK.StepK]) /\ kfl_desc_ok (exk_d [MK.StepK; MK.StepS])) /\
+  forall steps, ops_shaped MK.params kfl_desc kfl_shape [exk_d steps; exk_d steps] exk_ops.
+Proof. split. exact exk_desc_ok. exact exk_history_shaped. Qed.
+
+(* ---------------------------------------------------------------------- *)
+(* E. RTL structures (Proofs/PremadeRTL.v on top of Props/C17.v)             *)
+(* ---------------------------------------------------------------------- *)
+(* Vocabulary (MR = Model/RTLStructure.v, PR = Proofs/RTLStructure.v):
+     MR.rtl_structure cfg sh1 sh2 = Some s   the structure _get_rtl_structure returns
+                         (the two shuffles are oracles: any permutations)
+     MR.input_mono (MR.c_input cfg) i = 1    flattened RTL input i was supplied under
+                         'increasing' (premade_lib: every feature with a non-trivial
+                         monotonicity, C03_wiring_monotone_dim)
+     rtl_units s         the lattices of s, each with the monotonicity tuple of its entry
+     rtl_wired s cals ms member k of ms realises lattice k of s: reads those inputs, input
+                         j through calibrator nth j cals, and is non-decreasing along every
+                         position its tuple flags (member2_mono_dim: knondecr for a
+                         lattice - C01 via C03_lattice_invariant_feeds_composition -, a
+                         flagged monotonicity for a KFL unit)
+   An RTL lattice may read the same input at several positions. *)
+Theorem C03_rtl_ensemble_monotone : forall sh1 sh2 cfg s cals ms c oc x i v,
+  PR.perm_oracle sh1 -> PR.perm_oracle sh2 -> MR.rtl_structure cfg sh1 sh2 = Some s ->
+  rtl_wired s cals ms -> (forall m, In m ms -> member2_ok m) ->
+  comb_monotone c -> out_monotone oc -> (i < length x)%nat ->
+  MR.input_mono (MR.c_input cfg) i = 1%nat ->
+  calib_eval (nth i cals dcal) (nth i x 0) <= calib_eval (nth i cals dcal) v ->
+  ensemble2_eval ms c oc x <= ensemble2_eval ms c oc (set_nth i v x).
+Proof. exact rtl_ensemble_monotone. Qed.
+Print Assumptions C03_rtl_ensemble_monotone.
+
+(* numeric feature behind input i, every pair of non-missing inputs x_i <= v *)
+Theorem C03_rtl_ensemble_monotone_numeric : forall sh1 sh2 cfg s cals ms c oc x i v kps lens col miss,
+  PR.perm_oracle sh1 -> PR.perm_oracle sh2 -> MR.rtl_structure cfg sh1 sh2 = Some s ->
+  rtl_wired s cals ms -> (forall m, In m ms -> member2_ok m) ->
+  comb_monotone c -> out_monotone oc -> (i < length x)%nat ->
+  MR.input_mono (MR.c_input cfg) i = 1%nat ->
+  nth i cals dcal = CPwl kps lens col miss -> Forall (fun l => 0 < l) lens ->
+  regular_input (nth i cals dcal) (nth i x 0) -> regular_input (nth i cals dcal) v -> nth i x 0 <= v ->
+  (outs_nondecr col -> ensemble2_eval ms c oc x <= ensemble2_eval ms c oc (set_nth i v x)) /\
+  (outs_nonincr col -> ensemble2_eval ms c oc (set_nth i v x) <= ensemble2_eval ms c oc x).
+Proof. exact rtl_ensemble_monotone_numeric. Qed.
+Print Assumptions C03_rtl_ensemble_monotone_numeric.
+
+(* categorical feature behind input i, ordering pair (a, b) *)
+Theorem C03_rtl_ensemble_monotone_categorical : forall sh1 sh2 cfg s cals ms c oc x i vals d a b,
+  PR.perm_oracle sh1 -> PR.perm_oracle sh2 -> MR.rtl_structure cfg sh1 sh2 = Some s ->
+  rtl_wired s cals ms -> (forall m, In m ms -> member2_ok m) ->
+  comb_monotone c -> out_monotone oc -> (i < length x)%nat ->
+  MR.input_mono (MR.c_input cfg) i = 1%nat ->
+  nth i cals dcal = CCat vals d -> (a < length vals)%nat -> (b < length vals)%nat ->
+  d <> Some (Z.of_nat a) -> d <> Some (Z.of_nat b) -> nth a vals 0 <= nth b vals 0 ->
+  ensemble2_eval ms c oc (set_nth i (qn a) x) <= ensemble2_eval ms c oc (set_nth i (qn b) x).
+Proof. exact rtl_ensemble_monotone_categorical. Qed.
+Print Assumptions C03_rtl_ensemble_monotone_categorical.
+
+(* Hypotheses are satisfiable: the structure of C17_rtl_example realised by two
+   all-vertices lattices and one KFL unit (Examples exr_* in Proofs/PremadeRTL.v) *)
+Example C03_rtl_hypotheses_satisfiable :
+  (PR.perm_oracle (fun l => l) /\ MR.rtl_structure exr_cfg (fun l => l) (fun l => l) = Some exr_s) /\
+  rtl_wired exr_s exr_cals exr_ms /\ (forall m, In m exr_ms -> member2_ok m) /\
+  MR.input_mono (MR.c_input exr_cfg) 1 = 1%nat.
+Proof. split. exact exr_structure. split. exact exr_wired. split. exact exr_members_ok. reflexivity. Qed.
